@@ -212,7 +212,7 @@ class CHECK(vlib.Check):
                 "one transition = one _queueLock critical section / one signal / one return: interleavings inside a critical section are not distinguished; unlocked reads of _messageSocketsAllocated, the socket references and _messages.HasItems() are taken to be atomic (the C++ data races on them are outside the model)",
                 "only the owner thread (thread 0) receives replies and calls Start/Shutdown/WaitForInternalThreadToExit, as Thread.h documents; one reader per queue",
                 "allocation never fails",
-                "liveness: safety form (an enabled transition exists), can-reach form (a finite continuation to completion exists) and, for shutdown, eventual completion on every weakly fair execution (c11_shutdown_eventually_completes); the last two for reactions that send replies only; that the OS scheduler is weakly fair is a premise"]
+                "liveness: safety form (an enabled transition exists), can-reach form (a finite continuation to completion exists) and, for shutdown, eventual completion / eventual receipt of every queued Message on every weakly fair execution (c11_shutdown_eventually_completes, c11_queued_message_eventually_received); the last two forms for reactions that send replies only; that the OS scheduler is weakly fair is a premise"]
     rule = ("each case = an owner program (start / sends / receives poll, blocking, timed / shutdown / join / restart) plus 0..3 sender "
             "threads + the signalling mechanism + a schedule (explicit decisions, then a seeded random or non-preemptive policy); the "
             "real muscle::Thread is run under the controlled scheduler and, per decision, the enabled set, signals, the full state "
